@@ -235,7 +235,10 @@ Definition kind_of (k : skind) (arg : N) : skd :=
 
 (* __plthook_entry(ret_addr = loc, child), ARG1 = arg.  Since fix (plthook: landing pads) a call made while
    in_exception is set first drops the entries of the frames unwound so far (parent_loc <= ret_addr),
-   exactly as __mcount_entry does. *)
+   exactly as __mcount_entry does.  Since fix 945cdf8/ae9d4a7 the C code does so only for a call whose return
+   slot lies above the frame recorded by the last exception wrapper (mtdp->exception_frame): calls from inside the
+   unwinder or the C++ runtime (hooked with --nest-libcall only) lie below it.  The programs of this model make no
+   such calls (they are untraced code), so the guard is taken as true; it is exercised end to end only. *)
 Definition plthook_push (s : lst) (k : skind) (child loc arg : N) : lst :=
   let e := new_ent s true child loc (kind_of k arg) in
   let m1 := auto_restore (inexc s) (e :: rs s) (upd (m s) loc PRET) in
